@@ -189,4 +189,69 @@ RECIPES = [
     ("C18", "break", ["C18-R1b"], OP2, "sset = (uset & n2p.mkusetmask(\"s\")) != 0", "sset = (uset & n2p.mkusetmask(\"b\")) != 0", "_rdop2uset: wrong set selected"),
     ("C18", "break", ["C18-R1b"], LOC, "def mat_intersect(D1, D2, keep=0):", "_ASET = 0x70_008A\n\n\ndef mat_intersect(D1, D2, keep=0):", "a-set mask copied into another module (hex, grouped)"),
     ("C18", "break", ["C18-R1"], N2P, "            usetmask1 = usetmask1 | usetmask[set_]", "            usetmask1 = usetmask1 + usetmask[set_]", "mkusetmask: '+' arm adds"),
+    # ---- index2slice
+    ("C18", "neutral", [], LOC, """    d = np.diff(pv)
+    d0 = d[0]
+    if d0 != 0 and np.all(d == d0) and pv[0] >= 0 and pv[-1] >= 0:
+        stop = pv[-1] + d0
+        if stop < 0:
+            stop = None
+        return slice(pv[0], stop, d0)
+""", """    steps = np.diff(pv)
+    step = steps[0]
+    if step != 0 and not (steps != step).any() and pv[0] >= 0 and pv[-1] >= 0:
+        end = pv[-1] + step
+        return slice(pv[0], end if end >= 0 else None, step)
+""", "index2slice: renamed locals, any(!=) spacing test, conditional expression for the stop"),
+    ("C18", "break", ["C18-R5"], LOC, "        if stop < 0:\n            stop = None\n        return slice(pv[0], stop, d0)",
+     "        if stop <= 0:\n            stop = None\n        return slice(pv[0], stop, d0)", "index2slice: stop == 0 of a descending run turned into None"),
+    ("C18", "break", ["C18-R5"], LOC, "        if stop == 0:\n            stop = None\n        return slice(pv[0], stop)",
+     "        if stop <= 0:\n            stop = None\n        return slice(pv[0], stop)", "index2slice: single negative entry runs to the end"),
+    ("C18", "break", ["C18-R5"], LOC, "    if d0 != 0 and np.all(d == d0) and pv[0] >= 0", "    if d0 != 0 and np.any(d == d0) and pv[0] >= 0", "index2slice: irregular vector accepted"),
+    ("C18", "break", ["C18-R3"], LOC, "    if c1 != c2:\n        return np.array([], dtype=int), np.array([], dtype=int)\n\n    # loop over", "    if c1 == c2:\n        return np.array([], dtype=int), np.array([], dtype=int)\n\n    # loop over", "mat_intersect: empty result for equal column counts"),
+    ("C18", "break", ["C18-R3"], N2P, "        if nasset == \"p\":\n            uset_set = (uset[:, 0]", "        if nasset != \"p\":\n            uset_set = (uset[:, 0]", "mkdofpv: array table searched for a set it cannot know"),
+    # ---- helpers extracted at module level, sorted copy instead of a sorter
+    ("C18", "neutral", [], N2P, _MKDOFPV_TAIL, """    pv = _sorted_positions(uset_set, _dof)
+    chk = uset_set[pv] != _dof
+    if chk.any():
+        if strict:
+            raise ValueError(f"set '{nasset}' does not contain all of the dof in `dof`.")
+        chk = ~chk
+        pv = pv[chk]
+        dof = dof[chk]
+    return pv, dof
+
+
+def _sorted_positions(keys, wanted, clamp=True):
+    order = np.argsort(keys)
+    at = np.searchsorted(keys, wanted, sorter=order)
+    if clamp:
+        at[at == order.size] -= 1
+    return order[at]
+""", "mkdofpv: look-up extracted into a module-level private helper with a defaulted flag"),
+    ("C18", "neutral", [], N2P, _MKSETPV, """    major, minor = _as_mask(major), _as_mask(minor)
+    uset_set = uset["nasset"].values
+    pvmajor = (uset_set & major) != 0
+    pvminor = (uset_set & minor) != 0
+    if np.any(pvminor[~pvmajor]):
+        raise ValueError("`minorset` is not completely containedin `majorset`")
+    return pvminor[pvmajor]
+
+
+def _as_mask(nasset):
+    if isinstance(nasset, str):
+        return mkusetmask(nasset)
+    return nasset
+""", "mksetpv: string resolution extracted into a private helper, refusal test written as pvminor[~pvmajor].any()"),
+    ("C18", "neutral", [], LOC, _MAT_TAIL, """    i = haystack.argsort()
+    hs = haystack[i]
+    pvi = np.searchsorted(hs, needles)
+    pvi[pvi == hs.size] -= 1
+    pv2 = i[pvi]
+    pv1 = np.where(hs[pvi] == needles)[0]
+    pv2 = pv2[pv1]
+    if switch:
+        pv1, pv2 = pv2, pv1
+    return pv1, pv2
+""", "mat_intersect: search in a sorted copy instead of passing a sorter"),
 ]
